@@ -13,13 +13,35 @@ Definition run_0101 (input impl : sx) : sx :=
   | SL (sv :: pv :: mg :: _), SL [SN se; SN re; SN hung; dr; _; _] =>
     match dec_view sv, dec_view pv, sx_bool mg, sx_list dec_raw dr with
     | Some src, Some prior, Some merge, Some dest =>
-      let s := walk_root src in
-      let p := walk_root prior in
+      let unpriv := match input with SL [_; _; _; _; _; _; _; SN u] => negb (N.eqb u 0) | _ => false end in
+      (* the unprivileged receiver rewrites owners to its own id (1000) through the Filter option *)
+      let own (e : entry) : entry :=
+        if unpriv then
+          (let s := fst e in
+           {| st_path := st_path s; st_mode := st_mode s; st_uid := 1000; st_gid := 1000; st_size := st_size s;
+              st_mtime := st_mtime s; st_linkname := st_linkname s; st_devmajor := st_devmajor s;
+              st_devminor := st_devminor s; st_xattrs := st_xattrs s |}, snd e)
+        else e in
+      let s := map own (walk_root src) in
+      let p := map own (walk_root prior) in
       let success := N.eqb se 0 && N.eqb re 0 && N.eqb hung 0 in
       let holds :=
         if success then (if identity_faithful p s || merge then converged merge p s dest else true)
         else false in   (* a fault-free transfer of a valid view must succeed *)
-      verdict impl impl holds (SL (SN (if success then 1 else 2) :: (if success then converged_diag merge p s dest else [])))
+      let diag := if success then converged_diag merge p s dest else [] in
+      (* known finding: an unprivileged receiver cannot set user.* xattrs on a file it created
+         without owner write permission (LSetxattr fails with EACCES, the error is ignored) *)
+      let ro_xattr_item (it : sx) : bool :=
+        match it with
+        | SL [SB path; SN c] =>
+          N.eqb c 8 && match find_entry path s with
+                       | Some (st, _) => N.eqb (N.land (st_mode st) 128) 0
+                       | None => false end
+        | _ => false end in
+      let sig := if unpriv && negb (Nat.eqb (length diag) 0) && forallb ro_xattr_item diag
+                 then [SL [SB [115;105;103]; SB [117;110;112;114;105;118;45;114;101;97;100;111;110;108;121;45;120;97;116;116;114;115]]]
+                 else [] in   (* (sig "unpriv-readonly-xattrs") *)
+      verdict impl impl holds (SL (SN (if success then 1 else 2) :: diag ++ sig))
     | _, _, _, _ => v_malformed
     end
   | _, _ => v_malformed
